@@ -444,17 +444,18 @@ class Lagrange(Interpolator, StringSerializable):
                                                                       axis=-1))
 
                                 # if these points are at any other interpolation point
-                                other_pts_inv = other_pts.copy()
-                                other_pts_inv[other_j_idx, m, :grid_size_list[m]] = np.invert(
-                                    other_pts[other_j_idx, m, :grid_size_list[m]])  # noqa: E501
-                                curr_x_j = x_j_large[other_pts[..., m, :]].reshape((-1, 1))
-                                other_x_j = x_j_large[other_pts_inv[..., m, :]].reshape((-1, len(p_idx)))
-                                curr_w_j = w_j_large[other_pts[..., m, :]].reshape((-1, 1))
-                                other_w_j = w_j_large[other_pts_inv[..., m, :]].reshape((-1, len(p_idx)))
-                                curr_div = w_j[m, j[m]] / np.squeeze(curr_w_j, axis=-1)
-                                curr_diff = np.squeeze(curr_x_j, axis=-1) - x_j[m, j[m]]
-                                d2LJ_dx2[other_j_idx] = ((-2 * curr_div / curr_diff) * (np.nansum(
-                                    (other_w_j / curr_w_j) / (curr_x_j - other_x_j), axis=-1) + 1 / curr_diff))
+                                if np.any(other_j_idx):  # (a single-node grid has no other point)
+                                    other_pts_inv = other_pts.copy()
+                                    other_pts_inv[other_j_idx, m, :grid_size_list[m]] = np.invert(
+                                        other_pts[other_j_idx, m, :grid_size_list[m]])  # noqa: E501
+                                    curr_x_j = x_j_large[other_pts[..., m, :]].reshape((-1, 1))
+                                    other_x_j = x_j_large[other_pts_inv[..., m, :]].reshape((-1, len(p_idx)))
+                                    curr_w_j = w_j_large[other_pts[..., m, :]].reshape((-1, 1))
+                                    other_w_j = w_j_large[other_pts_inv[..., m, :]].reshape((-1, len(p_idx)))
+                                    curr_div = w_j[m, j[m]] / np.squeeze(curr_w_j, axis=-1)
+                                    curr_diff = np.squeeze(curr_x_j, axis=-1) - x_j[m, j[m]]
+                                    d2LJ_dx2[other_j_idx] = ((-2 * curr_div / curr_diff) * (np.nansum(
+                                        (other_w_j / curr_w_j) / (curr_x_j - other_x_j), axis=-1) + 1 / curr_diff))
 
                         d2LJ_dx2 = np.expand_dims(d2LJ_dx2, axis=-1) * np.prod(L_j, axis=-1, keepdims=True)  # (..., 1)
                         hess[..., m, n] += d2LJ_dx2 * yi_arr[i, :]
